@@ -62,9 +62,18 @@ func TestVerifMirror(t *testing.T) {
 	progress := os.Getenv("VERIF_PROGRESS")
 
 	logger = log.New(ioutil.Discard, "", 0)
+	other, _ := strconv.Atoi(os.Getenv("VERIF_OTHERUDP")) // the OTHER protocol's max-udp-size: independent settings
+	if other < 1 {
+		other = maxUDP
+	}
 	opts = &Options{Logger: logger,
 		IPFIXUDPSize: maxUDP, IPFIXMirrorAddr: "127.0.0.1", IPFIXMirrorPort: port, IPFIXMirrorWorkers: 1,
 		SFlowUDPSize: maxUDP, SFlowMirrorAddr: "127.0.0.1", SFlowMirrorPort: port, SFlowMirrorWorkers: 1}
+	if proto == "ipfix" {
+		opts.SFlowUDPSize = other
+	} else {
+		opts.IPFIXUDPSize = other
+	}
 	mCache = ipfix.GetCache("")
 
 	// the third-party collector: a UDP socket on the mirror port (so that the port is open) and a raw
@@ -110,42 +119,56 @@ func TestVerifMirror(t *testing.T) {
 	enc := json.NewEncoder(w)
 	sc := bufio.NewScanner(fi)
 	sc.Buffer(make([]byte, 1<<20), 1<<26)
-	pkt := make([]byte, 1<<17)
+	var cases []mCase
 	for sc.Scan() {
 		var c mCase
 		if err := json.Unmarshal(sc.Bytes(), &c); err != nil {
 			t.Fatal(err)
 		}
-		if progress != "" { // if the mirror worker takes the process down, this is the case that did it
-			ioutil.WriteFile(progress, sc.Bytes(), 0644)
+		cases = append(cases, c)
+	}
+	burst, _ := strconv.Atoi(os.Getenv("VERIF_BURST"))
+	if burst < 1 {
+		burst = 1
+	}
+	pkt := make([]byte, 1<<17)
+	for lo := 0; lo < len(cases); lo += burst {
+		hi := lo + burst
+		if hi > len(cases) {
+			hi = len(cases)
 		}
-		src := make(net.IP, len(c.Src))
-		for i, x := range c.Src {
-			src[i] = byte(x)
+		if progress != "" { // if the mirror worker takes the process down, this is the burst that did it
+			b, _ := json.Marshal(map[string]interface{}{"n": cases[lo].N, "form": cases[lo].Form, "burst": hi - lo})
+			ioutil.WriteFile(progress, b, 0644)
 		}
-		raddr := &net.UDPAddr{IP: src, Port: 40000}
-		// what the receive loop does: a pooled buffer, the datagram in its first n octets
-		switch proto {
-		case "ipfix":
-			b := ipfixBuffer.Get().([]byte)
-			for i, x := range c.Payload {
-				b[i] = byte(x)
+		// back to back: the later datagrams are handled while the earlier ones still wait in the mirror queue
+		for _, c := range cases[lo:hi] {
+			src := make(net.IP, len(c.Src))
+			for i, x := range c.Src {
+				src[i] = byte(x)
 			}
-			ipfixUDPCh <- IPFIXUDPMsg{raddr, b[:c.N]}
-		case "sflow":
-			b := sFlowBuffer.Get().([]byte)
-			for i, x := range c.Payload {
-				b[i] = byte(x)
+			raddr := &net.UDPAddr{IP: src, Port: 40000}
+			// what the receive loop does: a pooled buffer, the datagram read into it (at most len(buffer) octets)
+			switch proto {
+			case "ipfix":
+				b := ipfixBuffer.Get().([]byte)
+				n := copy(b, mBytes(c.Payload))
+				ipfixUDPCh <- IPFIXUDPMsg{raddr, b[:n]}
+			case "sflow":
+				b := sFlowBuffer.Get().([]byte)
+				n := copy(b, mBytes(c.Payload))
+				sFlowUDPCh <- SFUDPMsg{raddr, b[:n]}
 			}
-			sFlowUDPCh <- SFUDPMsg{raddr, b[:c.N]}
 		}
-		g := mGot{N: c.N, Form: c.Form, Missing: true}
+		got := make([]mGot, 0, hi-lo)
+		extra := 0
 		deadline := time.Now().Add(1500 * time.Millisecond)
-		for time.Now().Before(deadline) {
+		quiet := 0
+		for time.Now().Before(deadline) && quiet < 2 {
 			n, _, err := syscall.Recvfrom(fd, pkt, 0)
 			if err != nil || n < 28 {
-				if !g.Missing {
-					break // one quiet interval after the packet: no duplicate follows
+				if len(got) >= hi-lo {
+					quiet++ // quiet intervals after the last expected packet: no duplicate follows
 				}
 				continue
 			}
@@ -157,11 +180,11 @@ func TestVerifMirror(t *testing.T) {
 			if dport != port {
 				continue
 			}
-			g.Pkts++
-			if g.Pkts > 1 {
+			if len(got) >= hi-lo {
+				extra++
 				continue
 			}
-			g.Missing = false
+			g := mGot{Pkts: 1}
 			g.IHL, g.Proto = ihl, int(pkt[9])
 			g.IPLen = int(pkt[2])<<8 | int(pkt[3])
 			g.Src, g.Dst = mInts(pkt[12:16]), mInts(pkt[16:20])
@@ -169,11 +192,32 @@ func TestVerifMirror(t *testing.T) {
 			g.DPort = dport
 			g.UDPLen = int(pkt[ihl+4])<<8 | int(pkt[ihl+5])
 			g.Payload = mInts(pkt[ihl+8 : n])
-			tv := syscall.Timeval{Sec: 0, Usec: 20000}
-			syscall.SetsockoptTimeval(fd, syscall.SOL_SOCKET, syscall.SO_RCVTIMEO, &tv)
+			got = append(got, g)
+			if len(got) == hi-lo {
+				tv := syscall.Timeval{Sec: 0, Usec: 20000}
+				syscall.SetsockoptTimeval(fd, syscall.SOL_SOCKET, syscall.SO_RCVTIMEO, &tv)
+			}
 		}
 		tv := syscall.Timeval{Sec: 0, Usec: 200000}
 		syscall.SetsockoptTimeval(fd, syscall.SOL_SOCKET, syscall.SO_RCVTIMEO, &tv)
-		enc.Encode(g)
+		for k, c := range cases[lo:hi] {
+			g := mGot{N: c.N, Form: c.Form, Missing: true}
+			if k < len(got) {
+				g = got[k]
+				g.N, g.Form = c.N, c.Form
+				if k == hi-lo-1 {
+					g.Pkts += extra
+				}
+			}
+			enc.Encode(g)
+		}
 	}
+}
+
+func mBytes(a []int) []byte {
+	r := make([]byte, len(a))
+	for i := range a {
+		r[i] = byte(a[i])
+	}
+	return r
 }
